@@ -160,3 +160,10 @@ Definition lower_preserve (f : string) (extra : list string) (kwlit : string) (d
   MReshape (MTranspose (MReshape (preserve_call f extra kwlit din) (llens din)) (perm_of din dout)) (map psize dout).
 Definition preserve_ok (din dout : list pex) : bool :=
   forallb unoffset din && forallb unoffset dout && rearrange_ok (leaf_dims din) (unmark dout).
+
+(* ---- rearrangements with new output axes ("a b -> a c b": output-only axes repeat the value) ----
+   the input is aligned with the output's leaf order (length-1 dimensions where it lacks an axis, as for element-wise operands),
+   broadcast to the output's leaf lengths with the backend's broadcast_to, and reshaped to the output dimensions *)
+Definition lower_broadcast (k : nat) (din dout : list pex) : tm :=
+  MReshape (MBroadcast (lower_align k din dout) (llens dout)) (map psize dout).
+Definition broadcast_ok (din dout : list pex) : bool := align_ok din dout.
